@@ -200,6 +200,22 @@ def wl_cbf(ctx, rng, case):
                 data = bytes(res)
                 ctx.check(bytes(P.CountingBloomFilter.frombytes(data, **bl.kw_hash(hf))) == data, f"{op} result: export -> load -> export is not the identity")
             ctx.count("unions_and_intersections")
+            # chained merges: the result (whose element count is an ESTIMATE, possibly tiny next to near-limit cells) sometimes becomes
+            # the filter under test, also united with itself
+            if res.elements_added >= 0 and rng.random() < 0.6:
+                if rng.random() < 0.4:
+                    rr, exc = ctx.call(res.union, res)
+                    rcells = bl.cells_of(res)
+                    got = bl.cells_of(rr)
+                    for c in range(m):
+                        if got[c] != min(2 * rcells[c], U32MAX):
+                            ctx.fail(f"union of a merge result with itself: cell {c} is not the saturating sum (step {step})", a=rcells[c], got=got[c])
+                    ctx.count("chained_merges")
+                f = res
+                total = f.elements_added
+                out = Counter()
+                case.op("continue-with-the-result")
+                ctx.count("chained_merges")
             continue
         where = f"after step {step} ({case.ops[-1]})"
         ctx.check(f.elements_added == total, f"element total differs from the saturating model {where}", got=f.elements_added, want=total)
@@ -233,5 +249,5 @@ PROP = Prop(
                  "counting-Bloom removals are legitimate (amount <= outstanding additions) unless the key's minimum is pinned at the limit",
                  "join: a receiver cell already at a limit may stay pinned or take the saturating sum"],
     required=["cell_comparisons", "cases_reaching_int32_max", "cases_reaching_int32_min", "cases_reaching_uint32_max", "cases_reaching_int64_limit",
-              "cases_saturating_with_coinciding_positions", "removals_refused_at_limit", "joins", "unions_and_intersections"],
+              "cases_saturating_with_coinciding_positions", "removals_refused_at_limit", "joins", "unions_and_intersections", "chained_merges"],
 )
